@@ -159,14 +159,18 @@ def operator_trace(R, spec, repkind, quick):
         b.dispose()
 
 
-def step_trace(R, spec, repkind, stepname, mkstep, quick, multi=False):
+def step_trace(R, spec, repkind, stepname, mkstep, quick, multi=False, nan=False):
     b = GR.build(spec)
     try:
         g = extract_grammar(b.considered, b.start)
         d = int(g.get_min_tree_depth()) + 2
         rs = NativeRandomSource(R.randint(0, 10 ** 6))
         rep = make_rep(repkind, g, rs, d)
-        if multi:
+        if multi and nan:
+            # an objective that is undefined (NaN) for some programs
+            problem = MultiObjectiveProblem([False, True], lambda p: [float(value_of(p)),
+                                                                     float("nan") if value_of(p) % 3 == 0 else float(value_of(p) % 5)])
+        elif multi:
             problem = MultiObjectiveProblem([False, True], lambda p: [float(value_of(p)), float(value_of(p) % 3)])
         else:
             problem = SingleObjectiveProblem(lambda p: float(value_of(p)))
@@ -182,6 +186,8 @@ def step_trace(R, spec, repkind, stepname, mkstep, quick, multi=False):
             except Exception:
                 if len(pop) == 0 and rs.randint(0, 50) == 0:
                     return None
+        if nan:     # individuals with an undefined objective go last (the selection is known to raise when one comes first)
+            pop.sort(key=lambda x: any(c != c for c in x.get_fitness(problem).fitness_components))
         evs = [{"e": "snap", "op": "initial", "objs": [reg.snap(x) for x in pop]}]
         step = mkstep()
         gens = 10 if quick else 40
@@ -238,6 +244,12 @@ def main():
         if r:
             batch.trace(f"steps/{gid}/tree/lexicase-mut", r[0], r[1])
             nev += len(r[0])
+        for eps in (False, True):
+            r = step_trace(R, fixed[gid], "tree", "lexicase-nan",
+                           lambda: LexicaseSelection(epsilon=eps), quick, multi=True, nan=True)
+            if r:
+                batch.trace(f"steps/{gid}/tree/lexicase-nan/{int(eps)}", r[0], r[1])
+                nev += len(r[0])
     batch.traces = finalize(batch.traces)
     paths = batch.shards(a.out, a.shards)
     write_summary(a.out, {"batches": paths, "traces": len(batch.traces), "events": nev})
